@@ -3,7 +3,7 @@
     repair; the reverse of each repair is a seeded mutation), and hypotheses of the C12 theorems shown to be
     NECESSARY. *)
 From Teleport Require Import Base.Bytes Base.Outcome Base.AList Model.Registry Model.RegistryCheck
-  Proofs.RegistryMap Proofs.Registry Proofs.RegistryInst.
+  Proofs.RegistryMap Proofs.Registry Proofs.RegistryInst Gen.RegistryGen Proofs.RegistrySource.
 
 Definition with_flags (reindex guard direct gall hex base gaddr : bool) : variant :=
   {| v_reindex_all := reindex; v_update_guard := guard; v_mint_direct := direct; v_genesis_all := gall;
@@ -119,3 +119,35 @@ Proof.
   - intros [_ H]. vm_compute in H. discriminate.
   - apply not_consistent. vm_compute. reflexivity.
 Qed.
+
+(** The other environment hypothesis is NECESSARY too: InitGenesis is only sound on an EMPTY registry (it runs
+    once, at chain start).  Imported into a registry that already holds a pair on contract X, a perfectly valid
+    genesis file with another pair on X overwrites X's address-index entry: two pairs on one contract. *)
+Theorem C12_genesis_needs_empty_registry :
+  exists s o, Good hid0 s /\ ~ admissible head s o /\ validate_basic o = true /\ snd (stepv head s o) = 0%nat /\
+              ~ Consistent hid0 (fst (stepv head s o)).
+Proof.
+  exists (runv head empty_state [ORegisterERC20 (canon0 X) q]), (OGenesis [gp X [B "dcoin"]] []).
+  split; [apply monitor_decides; vm_compute; split; reflexivity|]. split; [|split; [reflexivity|split; [vm_compute; reflexivity|]]].
+  - intros [H _]. vm_compute in H. discriminate.
+  - apply not_consistent. vm_compute. reflexivity.
+Qed.
+
+(** [Good] alone does not make the export validate: a registry that is self-consistent but lists a string that
+    is no bank denomination (it can only come from an unvalidated import) exports a genesis that
+    GenesisState.Validate refuses.  So "registered denominations are valid" ([ValidDenoms]) is a NECESSARY
+    part of the invariant behind [C12_export_validates] - and it is an invariant of the code (same theorem). *)
+Theorem C12_export_needs_valid_denoms :
+  exists s s', init_genesis hid0 empty_state [gp X [B "1bad"]] = Ok s' /\ s = s' /\ Good hid0 s /\
+               Model.RegistryExport.export_validates head s = false.
+Proof.
+  eexists. eexists. split; [vm_compute; reflexivity|]. split; [reflexivity|].
+  split; [apply monitor_decides; vm_compute; split; reflexivity | vm_compute; reflexivity].
+Qed.
+
+(** Why the oracle hypothesis is restricted to hex-address texts: on ARBITRARY texts the real GetID (whatever the hash)
+    collides, because the separator may occur inside the text.  The unrestricted injectivity the first version of the
+    C12 theorems assumed is therefore false of the real function; the restricted one is all the proofs need. *)
+Theorem C12_getid_not_injective_on_arbitrary_texts : forall H : bytes -> bytes,
+  hid_of_source H getid_parts (B "a|b") (B "c") = hid_of_source H getid_parts (B "a") (B "b|c") /\ B "a|b" <> B "a".
+Proof. intro H. split; [reflexivity | discriminate]. Qed.
